@@ -1264,8 +1264,12 @@ def verify_function(prog: Program, reg: Registry, qualname: str, only_serves=Non
         rep["wall_s"] = round(time.time() - t0, 3)
         return rep
     except Exception as e:
-        rep["status"] = "engine_error"
-        rep["error"] = f"{type(e).__name__}: {e}\n" + traceback.format_exc()[-1500:]
+        # an internal exception while executing the function symbolically (typically ill-typed code: a contract applied
+        # to arguments of the wrong kind) is not a verdict about the code: the function is outside the verifier's reach
+        # and its bounded stand-in decides.  On the unchanged tree this still surfaces (exit 2, "fell out of reach").
+        rep["status"] = "out_of_reach"
+        rep["error"] = f"engine exception, treated as outside the subset: {type(e).__name__}: {e}"[:300]
+        rep["trace"] = traceback.format_exc()[-1200:]
         rep["wall_s"] = round(time.time() - t0, 3)
         return rep
     # several paths produce obligations of the same name: the uid (name + occurrence in execution order) tells them apart
